@@ -10,7 +10,7 @@
 Require Import Floats.SpecFloat.
 Require Import List ZArith Bool.
 From Flocq Require Import Core BinarySingleNaN.
-From Dasp Require Import Base.Res Base.ListX Base.Float Ring.Bounded Ring.Fixed Dsp.Sinc.
+From Dasp Require Import Base.Res Base.ListX Base.Float Ring.Bounded Ring.Fixed Dsp.Sinc Dsp.SincConv.
 Import ListNotations.
 Open Scope Z_scope.
 
@@ -54,7 +54,16 @@ Definition oracle (tbl : list (Z * Z)) (a : f64) : f64 :=
 (* ---- cases ---- *)
 Inductive zop :=
 | ZPush (fr : list Z) | ZInterp (xbits : Z) | ZReset        (* direct use of the Interpolator impl *)
-| ZNext | ZSetRatio (bits : Z).                             (* through the Converter *)
+| ZNext | ZSetRatio (bits : Z)                              (* through the Converter *)
+(* the other public operations of the Converter (Dsp/SincConv.v), callable between any two outputs *)
+| ZSetHz (a b : Z)                  (* set_hz_to_hz(a, b) *)
+| ZSetSample (x : Z)                (* set_sample_hz_scale(x) *)
+| ZSource                           (* source(): the source's pull counter *)
+| ZSrcPull                          (* source_mut().next() *)
+| ZIsExh                            (* Signal::is_exhausted *)
+| ZAcc                              (* the accumulator (hook verif_interpolation_value) *)
+| ZRebuild (kind a b : Z).          (* into_source(), then a constructor (0 scale_playback_hz(a), 1 from_hz_to_hz(a, b),
+                                       2 scale_sample_hz(a)) over the returned source with a fresh Sinc of the same depth *)
 
 Inductive scase :=
 | DCase (fcode ch depth : Z) (sin_args cos_args : list Z) (ops : list zop)
@@ -62,6 +71,15 @@ Inductive scase :=
 
 Definition zn (k : nat) : Z := Z.of_nat k.
 Definition FUEL : nat := 64.
+Definition f64_gt0 (x : f64) : bool := F64.ltb F64.zero x.          (* assert!(scale > 0.0) *)
+Definition b2z (b : bool) : Z := if b then 1 else 0.
+(* the scale a constructor hands to scale_playback_hz *)
+Definition ctor_scale (kind a b : Z) : f64 :=
+  match kind with
+  | 0 => F64.of_bits a
+  | 1 => F64.div (F64.of_bits a) (F64.of_bits b)
+  | _ => F64.div F64.one (F64.of_bits a)
+  end.
 
 Section Runner.
 Variable M : fmt NumF64.
@@ -135,6 +153,24 @@ Fixpoint vrun (c : conv NumF64 M) (ops : list zop) : list (list Z) :=
     end
   | ZSetRatio b :: t =>
     [7] :: vrun {| src := src c; pulls := pulls c; itp := itp c; ival := ival c; ratio := F64.of_bits b |} t
+  | ZSetHz a b :: t => [7] :: vrun (conv_set_hz_to_hz NumF64 M c (F64.of_bits a) (F64.of_bits b)) t
+  | ZSetSample x :: t => [7] :: vrun (conv_set_sample_hz_scale NumF64 M c (F64.of_bits x)) t
+  | ZSource :: t => [2; zn (pulls c)] :: vrun c t
+  | ZSrcPull :: t =>
+    let (fr, c') := conv_source_pull NumF64 M ch c in (3 :: zn (pulls c') :: map enc fr) :: vrun c' t
+  | ZIsExh :: t => [4; b2z (conv_is_exhausted NumF64 M c)] :: vrun c t
+  | ZAcc :: t => [5; F64.bits (ival c)] :: vrun c t
+  | ZRebuild kind a b :: t =>
+    match sinc_init NumF64 M ch (sdepth NumF64 M (itp c)) with
+    | Ok s =>
+      match conv_rebuild NumF64 M f64_gt0 c s (ctor_scale kind a b) with
+      | Ok c' => [7] :: vrun c' t
+      | Panic _ => [[8; 9]]         (* the assertion carries a custom message: harness class 9 *)
+      | UB => [[-2]]
+      end
+    | Panic k => [[8; zn (panic_code k)]]
+    | UB => [[-2]]
+    end
   | _ :: _ => [[-5]]
   end.
 
